@@ -49,6 +49,7 @@ type verifCfg struct {
 	dateRoll    bool // the clock may cross a <DATETIME> boundary during the run
 	subDir      bool // filename format contains a directory component
 	faults      int  // >0: one of the first `faults` fallible disk operations fails
+	rotLimit    bool // VerifC19_RotationSizeLimit: witness bookkeeping for "a rotation could not flush its pending batch"
 }
 
 const (
@@ -370,6 +371,9 @@ func verifExit(code int) {
 	if r.cfg.faults > 0 {
 		verifrt.Reach("zz-fault-ends-in-exit", r.disk.faulted)
 	}
+	if r.cfg.rotLimit {
+		verifrt.Reach("zz-rotation-cannot-flush-the-pending-gzip-batch-and-exits", r.lostAtRotation)
+	}
 	verifrt.Done()
 }
 
@@ -402,6 +406,7 @@ func verifGzClose(z *gzip.Writer) error {
 		return nil
 	}
 	g.closed = true
+	pending := len(g.buf)
 	m := make([]byte, 0, len(g.buf)+3)
 	m = append(m, 'G', byte(len(g.buf)))
 	m = append(m, g.buf...)
@@ -409,6 +414,12 @@ func verifGzClose(z *gzip.Writer) error {
 	g.buf = nil
 	verifCur.gzCloses++
 	_, err := g.w.Write(m)
+	if r := verifCur; err != nil && r.cfg.rotLimit && r.curEv == verifEvMsg && pending > 0 && pending == r.recLen*(len(r.msgs)-1-r.nFin) {
+		// (witness bookkeeping) the member that could not be written holds the whole pending batch
+		// but not the record of the message being delivered: this is the Close() of a rotation, not
+		// the Sync() that follows a write
+		r.lostAtRotation = true
+	}
 	return err
 }
 
@@ -575,6 +586,11 @@ type verifRun struct {
 	broke            bool
 	breakVoid        bool
 	carried          int
+	recLen           int  // length of a record (VerifC19_RotationSizeLimit)
+	curEv            int  // the event being delivered
+	lostAtRotation   bool // symbolic runs: see verifGzClose
+
+	limitNeedsPending bool // the limit comes into force only at a moment when a batch is pending (gzip: see VerifC19_RotationSizeLimit)
 
 	// native replay
 	synced   map[uint64]int // inode -> length known to be on disk
@@ -1165,6 +1181,7 @@ const (
 )
 
 func (r *verifRun) deliver(ev int, body []byte) {
+	r.curEv = ev
 	switch ev {
 	case verifEvMsg:
 		r.handle(r.f, r.newMessage(body))
